@@ -57,6 +57,14 @@ Lemma swap_swap {A B} (l : list (A * B)) :
   map (fun p : B * A => (snd p, fst p)) (map (fun p : A * B => (snd p, fst p)) l) = l.
 Proof. induction l as [|[a b] r IH]; cbn; [reflexivity|]. rewrite IH; reflexivity. Qed.
 
+Lemma NoDup_incl_length_eq {A} (l l' : list A) : NoDup l -> NoDup l' -> (forall x, In x l <-> In x l') -> length l = length l'.
+Proof. intros N N' H. apply Permutation_length, NoDup_Permutation; auto. Qed.
+
+Lemma filter_nil' {A} (f : A -> bool) l : (forall e, In e l -> f e = false) -> filter f l = [].
+Proof.
+  induction l as [|x r IH]; intros H; cbn; [reflexivity|]. rewrite (H x (or_introl eq_refl)). apply IH. intros e He; apply H; right; exact He.
+Qed.
+
 Section RZ.
   Variable compact : bool.
 
@@ -272,6 +280,52 @@ Section RZ.
     intros [a b c0 d e] C. constructor; cbn [c_meta c_elems]; auto; [discriminate|]. intros _ F. congruence.
   Qed.
 
+  Definition entry_of (e : vkey * score) : zikey := (fst (fst e), (snd e, snd (fst e))).
+
+  Lemma index_gen_length clock z v : RepZ clock z ->
+    length (filter (fun k : zikey => fst k =? v) (z_index z)) = length (gen_elems v (c_elems (z_c z))).
+  Proof.
+    intros [Rc [A B C]]. symmetry.
+    rewrite <- (map_length entry_of (gen_elems v (c_elems (z_c z)))).
+    apply NoDup_incl_length_eq.
+    - (* entry_of is injective on entries *)
+      assert (NG : NoDup (gen_elems v (c_elems (z_c z)))).
+      { apply NoDup_filter. eapply NoDup_map_inv. exact A. }
+      apply FinFun.Injective_map_NoDup; [|exact NG].
+      intros [[a b] c] [[a' b'] c'] H. unfold entry_of in H. cbn in H. inversion H; reflexivity.
+    - apply NoDup_filter; exact B.
+    - intros [v' [s m]]. rewrite in_map_iff, filter_In. cbn [fst]. split.
+      + intros ([[a b] c] & E & H). unfold entry_of in E. cbn in E. inversion E; subst.
+        apply gen_In in H. cbn in H. destruct H as [H ->]. split; [apply C; exact H|apply Z.eqb_refl].
+      + intros [H E]. apply Z.eqb_eq in E; subst v'. apply C in H. exists ((v, m), s). split; [reflexivity|].
+        apply gen_In. cbn. auto.
+  Qed.
+
+  Lemma index_scan_length clock z v : RepZ clock z ->
+    length (index_scan v (z_index z)) = length (gen_elems v (c_elems (z_c z))).
+  Proof.
+    intros R. unfold index_scan. rewrite isort_length, map_length. eapply index_gen_length; exact R.
+  Qed.
+
+  (* ZFIXKEY on a record that satisfies the invariant finds as many index entries as the stored size: nothing to repair *)
+  Lemma zfixkey_noop clock ts key z : RepZ clock z -> MapZ.zstep compact ts key ZCfixkey z = (z, RNil).
+  Proof.
+    intros R. cbn [MapZ.zstep]. destruct (max_batch_num <? zsize z); [reflexivity|].
+    assert (L : Z.of_nat (length (index_scan (zver z) (z_index z))) = zsize z).
+    { rewrite (index_scan_length clock z (zver z) R). destruct R as [Rc _].
+      unfold zsize, zver, st_size, st_ver. destruct (c_meta (z_c z)) as [m|] eqn:E.
+      - destruct (rc_meta _ _ _ Rc m E) as (_ & b & _). lia.
+      - assert (G0 : forall b, b = compact -> gen_elems 0 (c_elems (z_c z)) = []).
+        { intros b Hb. destruct b.
+          - (* generation 0 never exists under wait_compact *)
+            unfold gen_elems. apply filter_nil'. intros e He. pose proof (rc_vers _ _ _ Rc e He) as X.
+            unfold ver_ok in X. rewrite <- Hb in X. unfold vkey in *. lia.
+          - rewrite (rc_none _ _ _ Rc E (eq_sym Hb)). reflexivity. }
+        rewrite (G0 compact eq_refl). reflexivity. }
+    rewrite firstn_length. assert (Z.of_nat (Nat.min (Z.to_nat (zsize z)) (length (index_scan (zver z) (z_index z)))) =? zsize z = true) as -> by lia.
+    reflexivity.
+  Qed.
+
   (* the two DeleteRange calls of zRemAll remove exactly the member keys and the score-index keys of the
      generation: the invariant (and the bijection between the two) survives *)
   Lemma zrange_clear_rep clock z m : RepZ clock z -> c_meta (z_c z) = Some m ->
@@ -315,7 +369,9 @@ Section RZ.
   Theorem zstep_rep clock ts key c z : RepZ clock z -> 0 <= clock < ts -> RepZ ts (fst (zstep compact ts key c z)).
   Proof.
     intros R L. assert (Rm : RepZ ts z) by (eapply RepZ_mono; [|exact R]; lia).
-    destruct c as [ps|d m|ms|start stop|lo hi|lo hi lopen ropen| |]; cbn [zstep]; try exact Rm.
+    assert (FX : c = ZCfixkey -> RepZ ts (fst (zstep compact ts key c z)))
+      by (intros ->; rewrite (zfixkey_noop ts ts key z Rm); exact Rm).
+    destruct c as [ps|d m|ms|start stop|lo hi|lo hi lopen ropen| | |]; cbn [zstep]; try exact Rm; try (apply FX; reflexivity).
     - (* zadd *)
       destruct ps as [|p0 r0]; [exact Rm|]. set (ps := p0 :: r0) in *.
       destruct (too_many ps); [exact Rm|].
